@@ -8,7 +8,10 @@ World (numeric ids <-> real names, never sent to the model):
   staging file of slot d : <top>/ext/s<d>.yaml holding v = 100+d          (source of ingest)
   source repository <top>/src : every slot stored with v = 200+d             (source of transfer_from; same run names)
 
-Ops (JSON): ["trash", [d..]] (Datastore.trash only) | ["put", d, v] | ["ingest", "copy"|"move", d] | ["transfer", [d..]] | ["prune", [d..]] (purge+unstore+disassociate)
+Ops (JSON): ["mput", [[d, v]..]] (a loop of Butler.put in one process; a refused put is skipped, the first error is raised at the end)
+            | ["ingestmulti", "copy"|"move", [d..]] (ONE staging file s<d0>.yaml ingested for several refs: one artifact, several records)
+            | ["ingestzip", [d..]] (Butler.ingest_zip of a zip of the source repository's datasets d..: one artifact, fragment paths)
+            | ["trash", [d..]] (Datastore.trash only) | ["put", d, v] | ["ingest", "copy"|"move", d] | ["transfer", [d..]] | ["prune", [d..]] (purge+unstore+disassociate)
             | ["unstore", [d..]] | ["removeruns", r] | ["emptytrash"]
 
 Events (instrumented from outside the package, no source hooks):
@@ -230,6 +233,17 @@ class World:
         name = op[0]
         if name in ("prune", "unstore", "trash"):
             return self.refs_of(op[1])
+        if name == "ingestzip":
+            from lsst.resources import ResourcePath
+            sb = fixture.open_repo(self.src, writeable=False)
+            refs = [sb.find_dataset("dt", did(d), collections=run_of(d)) for d in op[1]]
+            dest = os.path.join(self.top, f"zz{os.getpid()}")
+            z = sb.retrieve_artifacts_zip([r for r in refs if r is not None], destination=ResourcePath(dest, forceDirectory=True))
+            try:
+                sb._registry._db._engine.dispose()
+            except Exception:  # noqa: BLE001
+                pass
+            return z
         if name == "transfer":
             sb = fixture.open_repo(self.src, writeable=False)
             refs = []
@@ -246,6 +260,22 @@ class World:
         if name == "put":
             _, d, v = op
             b.put(payload_of(d, v), "dt", did(d), run=run_of(d))
+        elif name == "mput":
+            errs = []
+            for d, v in op[1]:
+                try:
+                    b.put(payload_of(d, v), "dt", did(d), run=run_of(d))
+                except Exception as e:  # noqa: BLE001
+                    errs.append(e)
+            if errs:
+                raise errs[0]
+        elif name == "ingestmulti":
+            _, mode, ds = op
+            from lsst.daf.butler import DataCoordinate, DatasetRef, FileDataset
+            refs = [DatasetRef(self.dt, DataCoordinate.standardize(did(d), universe=b.dimensions), run=run_of(d)) for d in ds]
+            b.ingest(FileDataset(path=os.path.join(self.ext, f"s{ds[0]}.yaml"), refs=refs), transfer=mode)
+        elif name == "ingestzip":
+            b.ingest_zip(prep, transfer="copy")
         elif name == "ingest":
             _, mode, d = op
             from lsst.daf.butler import DataCoordinate, DatasetRef, FileDataset
@@ -297,6 +327,15 @@ def file_state(path, d=None):
     return [-1, -1]
 
 
+def zip_complete(path):
+    import zipfile
+    try:
+        with zipfile.ZipFile(path) as z:
+            return z.testzip() is None and len(z.namelist()) > 0
+    except Exception:  # noqa: BLE001
+        return False
+
+
 def observe(top, idmap=None):
     """Open a FRESH Butler on the repository and record everything the property talks about."""
     root = os.path.join(top, "repo")
@@ -318,7 +357,7 @@ def observe(top, idmap=None):
                                                                               limit=None)), [])
         byslot = {int(r.dataId["detector"]) + (4 if r.run == "r1" else 0): r for r in refs}
         obs["ds"] = sorted(byslot)
-        ex, got = [], []
+        ex, got, got_raw = [], [], []
         for d, r in sorted(byslot.items()):
             e = guard("exists", lambda r=r: b.exists(r, full_check=True), None)
             if e is None:
@@ -330,13 +369,20 @@ def observe(top, idmap=None):
             try:
                 x = b.get(r)
                 got.append([d, int(x.get("v", -1)) if (x.get("slot") == d and x.get("pad") == PAD) else -2])
+                if x.get("pad") == PAD:
+                    got_raw.append([d, int(x.get("slot", -1)), int(x.get("v", -1))])
+                else:
+                    got_raw.append([d, -2, -2])
             except FileNotFoundError:
                 got.append([d, -1])
+                got_raw.append([d, -1, -1])
             except Exception as e2:  # noqa: BLE001
                 got.append([d, -3])
+                got_raw.append([d, -3, -3])
                 obs["errors"].append(f"get:{d}:{type(e2).__name__}:{str(e2)[:100]}")
         obs["exists"] = ex
         obs["get"] = got
+        obs["get_raw"] = got_raw       # [slot, slot named in the payload, v]: several refs may share one artifact
     finally:
         try:
             b._registry._db._engine.dispose()
@@ -395,12 +441,20 @@ def raw(top, idmap=None):
         for (p,) in cur.execute("select path from file_datastore_records"):
             recs.append(slot_of_path(p) if slot_of_path(p) is not None else 98)
         out["raw_recs"] = sorted(recs)
+        rid = []
+        for i, p in cur.execute("select dataset_id, path from file_datastore_records"):
+            key = bytes(i) if not isinstance(i, str) else i
+            rid.append([det.get(key, 99), "zip" if "#zip-path=" in p else (slot_of_path(p) if slot_of_path(p) is not None else 98)])
+        out["raw_recs_id"] = sorted(rid)      # [slot of the dataset id, slot named by the path | "zip"]
         out["raw_runs"] = sorted(n for (n,) in cur.execute("select name from collection") if n in ("r0", "r1"))
     finally:
         con.close()
-    files, odd = [], []
+    files, odd, zips = [], [], []
     for rel in sorted(fixture.listing(root)):
         p = os.path.join(root, rel)
+        if re.fullmatch(r"zips/[0-9a-f]+/[0-9a-f-]+\.zip", rel):
+            zips.append([rel, int(zip_complete(p))])      # a zip under its FINAL name: complete archive or not
+            continue
         d = slot_of_path(rel)
         st = file_state(p)
         if d is not None:
@@ -410,6 +464,7 @@ def raw(top, idmap=None):
             odd.append([rel if len(rel) < 60 else rel[:60], st[1]])
     out["files"] = files
     out["odd"] = odd
+    out["zips"] = zips
     ext = []
     for d in range(NSLOT):
         p = os.path.join(top, "ext", f"s{d}.yaml")
